@@ -168,6 +168,14 @@ def check_derivative(op, pts, site, first, stats):
         except (NotImplementedError, odl.OpNotImplementedError):
             stats['noderiv'] += 1
             return
+        except ValueError as e:
+            if 'not differentiable' in str(e):
+                stats['skipped'] += 1      # documented non-differentiable point (refused cleanly)
+                continue
+            first.setdefault((site, 'derivative_raises:ValueError'),
+                             'x=%s: %r' % (np.asarray(p).tolist(), e))
+            stats['evals'] += 1
+            continue
         except Exception as e:
             first.setdefault((site, 'derivative_raises:' + type(e).__name__),
                              'x=%s: %r' % (np.asarray(p).tolist(), e))
